@@ -33,6 +33,23 @@ func (f *frame) call(st *State, instr ssa.Instruction, com *ssa.CallCommon, pos 
 	} else if fv, ok := st.env[com.Value].(*FuncVal); ok {
 		callee = fv.Fn
 		bindings = fv.Bindings
+	} else if fs, ok := st.env[com.Value].(*FuncSet); ok {
+		// every alternative is executed on a scratch copy of the state so that
+		// its obligations are generated; the actual effect is then havoced
+		for _, alt := range fs.Alts {
+			tmp := st.clone()
+			cc := vc.eng.contractFor(alt.Fn)
+			switch {
+			case cc != nil && !cc.Inline:
+				f.callContract(tmp, alt.Fn, cc, args, pos)
+			case alt.Fn.Blocks != nil:
+				vc.inlined[alt.Fn.String()] = true
+				vc.execFunc(alt.Fn, cc, args, alt.Bindings, tmp, false)
+			default:
+				vc.havoced[alt.Fn.String()] = true
+			}
+		}
+		return f.unknownCall(st, "call through a function value with several possible targets", com.Signature(), pos)
 	}
 	if callee == nil {
 		return f.unknownCall(st, "dynamic call "+com.Value.Name(), com.Signature(), pos)
@@ -297,7 +314,13 @@ func (f *frame) callContract(st *State, callee *ssa.Function, cc *Contract, args
 		// a callee witness is instantiated by the caller's witness of the same name
 		w, ok := vc.ghost[g.Name]
 		if !ok {
-			unsup("call of %s: no witness named %s in the caller's contract", short, g.Name)
+			if !vc.noSafety {
+				unsup("call of %s: no witness named %s in the caller's contract", short, g.Name)
+			}
+			// permission mode: functional preconditions are not checked, any witness will do
+			gs, gt := sc.quantSort(g.Type)
+			w = vc.freshSort("w_"+g.Name, gs)
+			w.T = gt
 		}
 		sc.vars[g.Name] = w
 	}
@@ -317,6 +340,12 @@ func (f *frame) callContract(st *State, callee *ssa.Function, cc *Contract, args
 		}
 		if strings.HasSuffix(short, "assert.That") {
 			kind = "assert"
+		}
+		if vc.noSafety && !vc.mentionsPermission(sc, r.Expr) {
+			// permission mode ("nosafety"): only preconditions about ghost
+			// permissions are obligations; functional preconditions are assumed
+			vc.assumeUnder(st.reach, g)
+			continue
 		}
 		vc.obligeAndAssume(st, kind, g, "precondition of "+short+": "+r.Src, pos)
 	}
@@ -509,6 +538,10 @@ func (f *frame) invoke(st *State, com *ssa.CallCommon, instr ssa.Instruction, po
 	}
 	short := "iface." + com.Method.Name()
 	for _, r := range ic.Requires {
+		if vc.noSafety && !vc.mentionsPermission(sc, r.Expr) {
+			vc.assumeUnder(st.reach, sc.evalBool(r.Expr))
+			continue
+		}
 		vc.obligeAndAssume(st, "pre."+short, sc.evalBool(r.Expr), "precondition of "+short+": "+r.Src, pos)
 	}
 	if ic.EnsuresPanic {
